@@ -1,7 +1,7 @@
-(* C07, fourth part: honesty of the state rows is an invariant of every history of environment
-   steps and queries without add. *)
+(* C07, sixth part: the invariant "every state row honest, every write-protected Local object
+   named_ok" holds along every history, add included. *)
 From Coq Require Import NArith List Bool Lia.
-From DvcData Require Import Base.Val Gen.Check Model.Integrity Proofs.IntegrityProofs Proofs.IntegrityProofsFold Proofs.IntegrityProofsAdd.
+From DvcData Require Import Base.Val Gen.Check Model.StateDbBase Model.Integrity Proofs.IntegrityProofs Proofs.IntegrityProofsFold Proofs.IntegrityProofsAdd Proofs.IntegrityProofsAddInv.
 Import ListNotations.
 Open Scope N_scope.
 
@@ -10,17 +10,26 @@ Section WithDigest.
 
   Notation hash_file := (hash_file H).
   Notation check := (check H).
+  Notation named_ok := (named_ok H).
   Notation honest_for := (honest_for H).
   Notation honest := (honest H).
+  Notation trusted_ok := (trusted_ok H).
+  Notation Inv := (Inv H).
 
-  (* side conditions of the environment steps: a tamper / plant / touch changes the token with
-     respect to the state row of that id (or leaves bytes and token as they are: chmod); a foreign
-     state row for the store's algorithm is truthful; add is not part of these histories *)
+  (* side conditions of the steps.
+     OSet (tamper / plant / touch / chmod): the token changes with respect to the state row of that
+       id, or bytes and token stay as they are (chmod); and content that is left write-protected
+       (0o444) on a Local store hashes to its name - the property is about objects that are NOT
+       write-protected.
+     OSaveRow: a foreign state row for the store's algorithm is truthful.
+     OAdd: distinct ids, fresh tokens for the copies (`token changed`), and - without
+       verification - sources that hash to their ids, onto objects that hash to their names. *)
   Definition tick_ok (w : world) (p : op) : Prop :=
     match p with
-    | OAdd _ _ => False
+    | OAdd v items => add_ok H w v items
     | OSet o b m t =>
-        row_fresh w o t \/ (exists ob, lookup o (w_objs w) = Some ob /\ o_bytes ob = b /\ o_tok ob = t)
+        (row_fresh w o t \/ (exists ob, lookup o (w_objs w) = Some ob /\ o_bytes ob = b /\ o_tok ob = t)) /\
+        (w_cls w = Local -> S_IMODE m = PROTECTED -> split_dot0 (H (w_alg w) b) = split_dot0 o)
     | OSaveRow o alg v =>
         alg = w_alg w -> forall ob, lookup o (w_objs w) = Some ob ->
         split_dot0 v = split_dot0 (H alg (o_bytes ob))
@@ -33,12 +42,7 @@ Section WithDigest.
     | p :: h' => tick_ok w p /\ ticks (fst (step H w p)) h'
     end.
 
-  Lemma honest_ext w1 w2 o : cfg w1 = cfg w2 -> sl w1 o = sl w2 o -> honest w1 o -> honest w2 o.
-  Proof.
-    intros C S Hon ob L. pose proof (sl_fields _ _ _ S) as [SO SD]. rewrite <- SO in L.
-    apply (honest_for_ext H w1 w2); auto.
-  Qed.
-
+  (* ---- check keeps both halves of the invariant, for every id *)
   Lemma honest_check w o o' : honest w o -> honest (snd (check w o')) o.
   Proof.
     intros Hon. destruct (leqb_dec o' o) as [->|N].
@@ -50,72 +54,165 @@ Section WithDigest.
         intros r S Lr Tr Ar. rewrite protect_db in Lr. rewrite protect_alg in *. rewrite protect_state in S.
         simpl in *. rewrite B. apply (hash_file_db_honest H w o ob r); auto. congruence.
       + intros ob' L'. simpl in L'. rewrite lookup_remove_eq in L'. discriminate.
-    - apply (honest_ext w); auto. symmetry; apply check_cfg. symmetry; apply check_frame; auto.
+    - apply (honest_ext H w); auto. symmetry; apply check_cfg. symmetry; apply check_frame; auto.
   Qed.
 
-  Lemma honest_exist_fold os : forall acc w, (forall o, honest w o) ->
-    forall o, honest (snd (fold_left (exist_step H) os (acc, w))) o.
+  Lemma trusted_check w o o' : honest w o -> trusted_ok w o -> trusted_ok (snd (check w o')) o.
   Proof.
-    induction os as [|o' os IH]; intros acc w Hon; simpl; auto.
-    apply IH. unfold exist_step. simpl. intros o. now apply honest_check.
+    intros Hon Tr. destruct (leqb_dec o' o) as [->|N].
+    - destruct (lookup o (w_objs w)) as [ob|] eqn:L.
+      + destruct (w_cls w) eqn:C; [destruct (mode_dec (o_mode ob)) as [M|M]|].
+        * now rewrite (check_trusted H w o ob L C M).
+        * rewrite (check_untrusted H w o ob L (fun _ => M)).
+          destruct (named_ok_dec H (w_alg w) o ob) as [Hn|Hn].
+          -- rewrite (base_check_ok H w o ob (Hon ob L) Hn). simpl.
+             destruct (Intact_after_ok H w o ob L Hn (Hon ob L)) as (ob' & L' & Hn' & _).
+             intros ob2 L2 _ _. rewrite L' in L2. injection L2 as <-. exact Hn'.
+          -- rewrite (base_check_bad H w o ob (Hon ob L) Hn). simpl.
+             intros ob2 L2. simpl in L2. rewrite lookup_remove_eq in L2. discriminate.
+        * intros ob2 L2 C2. exfalso.
+          assert (X : w_cls (snd (check w o)) = w_cls w).
+          { pose proof (cfg_fields _ _ (check_cfg H w o)) as (CC & _). exact CC. }
+          congruence.
+      + now rewrite (check_missing H w o L).
+    - apply (trusted_ok_ext H w); auto. symmetry; apply check_cfg. symmetry; apply check_frame; auto.
   Qed.
 
-  Lemma step_honest w p : (forall o, honest w o) -> tick_ok w p -> forall o, honest (fst (step H w p)) o.
+  Lemma inv_check w o' : Inv w -> Inv (snd (check w o')).
   Proof.
-    intros Hon Tk o. destruct p as [v items|o'|os|o'|o' b m t|o'|o'|o' alg v|]; simpl in *.
-    - contradiction.
-    - now apply honest_check.
-    - unfold oids_exist. destruct (w_cls w); simpl; auto. now apply honest_exist_fold.
-    - unfold checkout. destruct (lookup o' (w_objs (snd (check w o')))); simpl; now apply honest_check.
+    intros (Hon & Tr & FM). split; [|split].
+    - intros o. now apply honest_check.
+    - intros o. now apply trusted_check.
+    - pose proof (cfg_fields _ _ (check_cfg H w o')) as (CC & _ & _ & _ & CF). now rewrite CC, CF.
+  Qed.
+
+  Lemma inv_exist_fold os : forall acc w, Inv w -> Inv (snd (fold_left (exist_step H) os (acc, w))).
+  Proof.
+    induction os as [|o' os IH]; intros acc w I; simpl; auto.
+    apply IH. unfold exist_step. simpl. now apply inv_check.
+  Qed.
+
+  (* steps that leave the objects alone keep trusted_ok *)
+  Lemma trusted_same_objs w w' o : w_objs w' = w_objs w -> w_cls w' = w_cls w -> w_alg w' = w_alg w ->
+    trusted_ok w o -> trusted_ok w' o.
+  Proof. intros EO EC EA Tr ob L. rewrite EO in L. rewrite EC, EA. now apply Tr. Qed.
+
+  Lemma step_inv w p : Inv w -> tick_ok w p -> Inv (fst (step H w p)).
+  Proof.
+    intros I Tk. destruct p as [v items|o'|os|o'|o' b m t|o'|o'|o' alg v|]; simpl in *.
+    - now apply add_inv.
+    - now apply inv_check.
+    - unfold oids_exist. destruct (w_cls w); simpl; auto. now apply inv_exist_fold.
+    - unfold checkout. destruct (lookup o' (w_objs (snd (check w o')))); simpl; now apply inv_check.
     - (* OSet *)
-      intros ob L. simpl in L. destruct (leqb_dec o o') as [->|N].
-      + rewrite lookup_set_eq in L. injection L as <-. intros r S Lr Tr Ar. simpl in *.
-        destruct Tk as [F|(ob0 & L0 & B0 & T0)].
-        * exfalso. now apply (F r).
-        * subst b t. apply (Hon o' ob0 L0 r); auto.
-      + rewrite lookup_set_neq in L by auto. intros r S Lr Tr Ar. simpl in *. now apply (Hon o ob L r).
+      destruct I as (Hon & Tr & FM). destruct Tk as [Tk1 Tk2]. split; [|split; [|exact FM]].
+      + intros o ob L. simpl in L. destruct (leqb_dec o o') as [->|N].
+        * rewrite lookup_set_eq in L. injection L as <-. intros r S Lr Tr' Ar. simpl in *.
+          destruct Tk1 as [F|(ob0 & L0 & B0 & T0)].
+          -- exfalso. now apply (F r).
+          -- subst b t. apply (Hon o' ob0 L0 r); auto.
+        * rewrite lookup_set_neq in L by auto. intros r S Lr Tr' Ar. simpl in *. now apply (Hon o ob L r).
+      + intros o ob L C M. simpl in *. destruct (leqb_dec o o') as [->|N].
+        * rewrite lookup_set_eq in L. injection L as <-. simpl in *. now apply Tk2.
+        * rewrite lookup_set_neq in L by auto. now apply (Tr o ob L).
     - (* ODel *)
-      intros ob L. simpl in L. destruct (leqb_dec o o') as [->|N].
-      + rewrite lookup_remove_eq in L. discriminate.
-      + rewrite lookup_remove_neq in L by auto. intros r S Lr Tr Ar. simpl in *. now apply (Hon o ob L r).
+      destruct I as (Hon & Tr & FM). split; [|split; [|exact FM]].
+      + intros o ob L. simpl in L. destruct (leqb_dec o o') as [->|N].
+        * rewrite lookup_remove_eq in L. discriminate.
+        * rewrite lookup_remove_neq in L by auto. intros r S Lr Tr' Ar. simpl in *. now apply (Hon o ob L r).
+      + intros o ob L C M. simpl in *. destruct (leqb_dec o o') as [->|N].
+        * rewrite lookup_remove_eq in L. discriminate.
+        * rewrite lookup_remove_neq in L by auto. now apply (Tr o ob L).
     - (* OHash *)
-      destruct (lookup o' (w_objs w)) as [ob'|] eqn:L'; simpl; auto.
-      intros ob L. simpl in L. intros r S Lr Tr Ar. simpl in *. destruct (leqb_dec o o') as [->|N].
-      + rewrite L' in L. injection L as <-. apply (hash_file_db_honest H w o' ob' r (Hon o' ob' L')); auto.
-      + rewrite hash_file_db_frame in Lr by auto. now apply (Hon o ob L r).
+      destruct I as (Hon & Tr & FM).
+      destruct (lookup o' (w_objs w)) as [ob'|] eqn:L'; simpl; [|repeat split; auto].
+      split; [|split; [|exact FM]].
+      + intros o ob L. simpl in L. intros r S Lr Tr' Ar. simpl in *. destruct (leqb_dec o o') as [->|N].
+        * rewrite L' in L. injection L as <-. apply (hash_file_db_honest H w o' ob' r (Hon o' ob' L')); auto.
+        * rewrite hash_file_db_frame in Lr by auto. now apply (Hon o ob L r).
+      + intros o. now apply (trusted_same_objs w).
     - (* OSaveRow *)
-      destruct (w_state w) eqn:S0; simpl; auto.
-      destruct (lookup o' (w_objs w)) as [ob'|] eqn:L'; simpl; auto.
-      intros ob L. simpl in L. intros r S Lr Tr Ar. simpl in *. unfold st_save in Lr. rewrite S0 in Lr.
-      destruct (leqb_dec o o') as [->|N].
-      + rewrite lookup_set_eq in Lr. injection Lr as <-. simpl in *. rewrite L' in L. injection L as <-.
-        subst alg. now apply Tk.
-      + rewrite lookup_set_neq in Lr by auto. now apply (Hon o ob L r).
+      destruct I as (Hon & Tr & FM).
+      destruct (w_state w) eqn:S0; simpl; [|repeat split; auto].
+      destruct (lookup o' (w_objs w)) as [ob'|] eqn:L'; simpl; [|repeat split; auto].
+      split; [|split; [|exact FM]].
+      + intros o ob L. simpl in L. intros r S Lr Tr' Ar. simpl in *. unfold st_save in Lr. rewrite S0 in Lr.
+        destruct (leqb_dec o o') as [->|N].
+        * rewrite lookup_set_eq in Lr. injection Lr as <-. simpl in *. rewrite L' in L. injection L as <-.
+          subst alg. now apply Tk.
+        * rewrite lookup_set_neq in Lr by auto. now apply (Hon o ob L r).
+      + intros o. now apply (trusted_same_objs w).
     - (* ODropState *)
-      intros ob L r S Lr. simpl in Lr. discriminate.
+      destruct I as (Hon & Tr & FM). split; [|split; [|exact FM]].
+      + intros o ob L r S Lr. simpl in Lr. discriminate.
+      + intros o. now apply (trusted_same_objs w).
   Qed.
 
-  Theorem history_honest w h : (forall o, honest w o) -> ticks w h -> forall o, honest (exec H w h) o.
+  Theorem history_inv w h : Inv w -> ticks w h -> Inv (exec H w h).
   Proof.
-    revert w. induction h as [|p h IH]; intros w Hon Tk; simpl; auto.
-    destruct Tk as [T1 T2]. apply IH; auto. now apply step_honest.
+    revert w. induction h as [|p h IH]; intros w I Tk; simpl; auto.
+    destruct Tk as [T1 T2]. apply IH; auto. now apply step_inv.
   Qed.
 
-  (* the empty store with an empty state database is honest: histories may start there, and a store
-     filled by planting (OSet) objects under fresh tokens stays honest *)
-  Lemma empty_honest c a s v m o : honest (W c a s v m [] []) o.
-  Proof. intros ob L. discriminate. Qed.
+  (* the empty store with an empty state database satisfies the invariant *)
+  Lemma empty_inv c a s v m : (c = Local -> S_IMODE m <> PROTECTED) -> Inv (W c a s v m [] []).
+  Proof.
+    intros FM. split; [|split; [|exact FM]].
+    - intros o ob L. discriminate.
+    - intros o ob L. discriminate.
+  Qed.
+
+  (* consequences at any point of a history: the hypotheses of the one-step theorems *)
+  Corollary history_tampered w h o ob : Inv w -> ticks w h ->
+    lookup o (w_objs (exec H w h)) = Some ob -> ~ named_ok (w_alg (exec H w h)) o ob ->
+    S_IMODE (o_mode ob) <> PROTECTED -> Tampered H (exec H w h) o ob.
+  Proof.
+    intros I Tk L Hn M. destruct (history_inv w h I Tk) as (Hon & _ & _).
+    split; auto. split; auto. split; auto. now apply Hon.
+  Qed.
+
+  Corollary history_intact w h o ob : Inv w -> ticks w h ->
+    lookup o (w_objs (exec H w h)) = Some ob -> named_ok (w_alg (exec H w h)) o ob ->
+    Intact H (exec H w h) o ob.
+  Proof.
+    intros I Tk L Hn. destruct (history_inv w h I Tk) as (Hon & _ & _).
+    split; auto. split; auto. now apply Hon.
+  Qed.
 End WithDigest.
 
-(* non-vacuity: a history that plants an object, re-hashes it, tampers with it (token changed) and
-   then checks it satisfies the side conditions *)
-Example ticks_example :
-  let H := tableH [([1; 2], [98]); ([3], [97])] in
-  let h := [OSet [97] [3] 420 (T 7 10 1); OHash [97]; OSet [97] [1; 2] 420 (T 7 20 2); OCheck [97]] in
-  ticks H (W Local md5_name true false 420 [] []) h /\
-  w_objs (exec H (W Local md5_name true false 420 [] []) h) = [].
+(* non-vacuity: from the empty Local store: add two objects without verification (honest sources),
+   re-hash one, tamper with it (token changed), add it again with verification from a corrupt
+   source together with a third object, check it: the side conditions hold at every step *)
+Definition hx := tableH [([1; 2], [98]); ([3], [97]); ([5], [99])].
+Definition w0 : world := W Local md5_name true false 420 [] [].
+Definition hist_ex : list op :=
+  [OAdd None [([97], [3], T 7 10 1); ([99], [5], T 8 10 1)];
+   OHash [97];
+   OSet [97] [1; 2] 420 (T 7 20 2);
+   OAdd (Some true) [([97], [1; 2], T 9 30 2); ([98], [1; 2], T 10 30 2)];
+   OCheck [97]; OExist [[97]; [98]; [99]]].
+
+Example ticks_example : ticks hx w0 hist_ex.
 Proof.
-  simpl. repeat split; auto.
-  - left. intros r L. discriminate.
-  - left. intros r L. vm_compute in L. injection L as <-. discriminate.
+  simpl. split.
+  { split. repeat constructor; simpl; intuition discriminate.
+    split.
+    - intros o b t [E|[E|[]]]; injection E as <- <- <-; split; intros ? L; discriminate.
+    - intros _ o b t [E|[E|[]]]; injection E as <- <- <-; split; try reflexivity; intros ? L; discriminate. }
+  split; [exact I|].
+  split.
+  { split. left. intros r L. vm_compute in L. injection L as <-. discriminate. intros _ M. discriminate. }
+  split.
+  { split. repeat constructor; simpl; intuition discriminate.
+    split.
+    - intros o b t [E|[E|[]]]; injection E as <- <- <-; split; intros ? L; vm_compute in L;
+        try discriminate; injection L as <-; discriminate.
+    - intros V. discriminate. }
+  repeat split.
 Qed.
+
+Example hist_ex_result :
+  map fst (w_objs (exec hx w0 hist_ex)) = [[99]; [98]] /\
+  fst (run hx w0 hist_ex) =
+    [OAdded 2 []; OHashed (Some [97]); ONone; OAdded 2 [[97]]; ORes 2; OExists [[98]; [99]]].
+Proof. vm_compute. auto. Qed.
